@@ -200,6 +200,24 @@ Section Jsonl.
     rewrite get_put_other by exact Hne. reflexivity.
   Qed.
 
+  (* the store keeps the LAST payload written under a key: an overwrite is never skipped *)
+  Theorem cloud_overwrite : forall st key a b,
+    Forall record_ok b ->
+    cloud_read de dec (cloud_write ser enc (cloud_write ser enc st key a) key b) key = Ok b.
+  Proof. intros st key a b H. apply cloud_roundtrip. exact H. Qed.
+
+  (* ... also with writes to other keys in between *)
+  Theorem cloud_overwrite_interleaved : forall st k1 k2 a a2 b,
+    k1 <> k2 -> Forall record_ok b -> Forall record_ok a2 ->
+    let st' := cloud_write ser enc (cloud_write ser enc (cloud_write ser enc st k1 a) k2 a2) k1 b in
+    cloud_read de dec st' k1 = Ok b /\ cloud_read de dec st' k2 = Ok a2.
+  Proof.
+    intros st k1 k2 a a2 b Hne Hb Ha2. cbv zeta. split.
+    - apply cloud_roundtrip. exact Hb.
+    - rewrite cloud_write_frame by (intros E; apply Hne; symmetry; exact E).
+      apply cloud_roundtrip. exact Ha2.
+  Qed.
+
   (* reading by glob = concatenation, in sorted key order, of the objects whose keys match *)
   Lemma read_all_concat : forall st (f : list N -> list R) ks,
     (forall k, In k ks -> cloud_read de dec st k = Ok (f k)) ->
